@@ -184,6 +184,33 @@ fn gen_file(t: &mut Tape) -> (String, Vec<Container>) {
         } else {
             Vec::new()
         };
+        // every eighth container: 5 to 8 byte-granular members in a declared order that is worse than both
+        // sorted orders (the class the statement demands a report for), found by trying tape-chosen orders
+        if max >= 8 && t.chance(32) {
+            let sized: Vec<(String, u16)> = table[16..].to_vec();
+            let n = t.range(5, 8);
+            let mut pick: Vec<(String, u16)> = (0..n).map(|_| t.pick(&sized).clone()).collect();
+            for _ in 0..12 {
+                let sizes_now: Vec<u16> = pick.iter().map(|p| p.1).collect();
+                let mut asc = sizes_now.clone();
+                asc.sort();
+                let mut desc = asc.clone();
+                desc.reverse();
+                let d = slot_model(&sizes_now);
+                if slot_model(&asc) < d && slot_model(&desc) < d {
+                    break;
+                }
+                let perm = t.permutation(pick.len());
+                pick = perm.into_iter().map(|i| pick[i].clone()).collect();
+            }
+            for (ty, bits) in pick {
+                *id += 1;
+                text.push_str(&format!("{ty} m{} ;\n", *id));
+                *line += 1;
+                sizes.push(bits);
+            }
+            return sizes;
+        }
         for _ in 0..k {
             // bias to small types so that packing matters
             let (ty, bits) = if !palette.is_empty() {
@@ -304,6 +331,9 @@ fn file_case(check: &str, text: &str, conts: &[Container], st: &mut Stats) -> Ve
         let optimal_but_unsorted = declared == opt && c.sizes != asc && c.sizes != desc;
         if sort_differs {
             st.count("ascending_and_descending_sorts_differ");
+        }
+        if c.sizes.len() >= 5 && slot_model(&asc) < declared && slot_model(&desc) < declared {
+            st.count("containers_of_five_or_more_members_where_both_sorts_save");
         }
         if suboptimal_but_sorting_does_not_help {
             st.count("suboptimal_but_sorting_does_not_help");
@@ -445,6 +475,7 @@ pub fn run(env: &Env) -> i32 {
         floors: vec![
             ("containers sub-optimal although sorting does not help".into(), st.counters.get("suboptimal_but_sorting_does_not_help").copied().unwrap_or(0), 50),
             ("containers optimal but unsorted".into(), st.counters.get("optimal_but_unsorted").copied().unwrap_or(0), 50),
+            ("containers of five or more members where both sorts save a slot".into(), st.counters.get("containers_of_five_or_more_members_where_both_sorts_save").copied().unwrap_or(0), 200),
         ],
     };
     finish(env, st, meta)
